@@ -14,6 +14,8 @@ theorem verdict : (classify Generated.factsC04).Sound (Holds (cfgOf Generated.fa
 #print axioms Hv.Storage.readNextBlock_crc_mismatch
 #print axioms Hv.Storage.parseEntries_ok_length
 #print axioms Hv.Storage.alloc_bounded
+#print axioms Hv.Storage.readNextBlock_torn
+#print axioms Hv.Storage.load_is_prefix_replay
 #print axioms holds_of_good
 #print axioms holds_partial
 #print axioms forgedSize_allocates
